@@ -153,6 +153,9 @@ class Sd:
     def lit(self, av):
         """Go literal of the avro.Schema value."""
         k = self.kind
+        if k.startswith("bare_"):
+            # a composite type name without its attributes (no items / values / size / fields / branches)
+            return "%sSchema{Type: \"%s\"}" % (av, k[5:])
         if k == "union":
             return "%sSchema{Type: \"union\", Union: []%sSchema{%s}}" % (av, av, ", ".join(b.lit(av) for b in self.branches))
         if k in ("null", "boolean", "int", "long", "float", "double", "bytes", "string") and not self.logical:
@@ -1126,6 +1129,7 @@ C05_SCHEMAS = [
     Sd("record", name="inner", fields=[("X", Sd("long"))]), Sd("enum", name="e"),
     Sd("array", items=Sd("long")), Sd("map", items=Sd("long")), U(Sd("long")), Sd("union", branches=[Sd("string"), Sd("null")]),
     Sd("union", branches=[Sd("null"), Sd("string"), Sd("long")]), Sd("union", branches=[Sd("int"), Sd("long")]), Sd("union", branches=[Sd("long")]),
+    Sd("bare_array"), Sd("bare_map"), Sd("bare_fixed"), Sd("bare_record"), Sd("bare_union"),
 ]
 
 C05_KINDS = [
